@@ -1,5 +1,172 @@
-import Smooth.Model.Surface
+/-
+C18 — the same expression and point always produce the same outcome whatever the order in which a
+point's coordinates were written or variables were created; no answer depends on set or dictionary
+iteration order.
+
+In the model every Python `dict`/`set` is a *list*, so that an iteration order exists and a
+dependence on it would be expressible: a point is an association list (`Point α`, read by
+`Point.get?`), the variable set is the list `e.vars` (first-occurrence order), the accumulators of
+reverse mode are association lists (`Acc`, `SAcc`).  The theorems say that permuting any of these
+lists changes no outcome — value, error or dictionary entry.  All statements are generic in the
+number instance `N : Num α` (reals, rationals, doubles alike).
+
+`symFwd`, the rewrite rules, `stepF`, `fullyReduceLoop`, `normalizeF` take neither a point nor a
+variable list nor an accumulator: there is no order parameter they could depend on, and nothing to
+state (the n-ary operand lists are sequences in Python, too).  Object identities (`Flags.id`, which
+depend on creation order) are ignored by every semantic function by construction of the model.
+-/
+import Smooth.Proofs.Order
+
 namespace Smooth
-/-- placeholder while the property file is being written -/
-theorem C18_placeholder : (1 : Nat) = 1 := rfl
+open Expr
+variable {α : Type}
+
+/-! ### the order in which a point's coordinates are written -/
+
+/-- **C18, evaluation.**  Two points with the same lookups give the same outcome (value or error). -/
+theorem eval_same_lookups (N : Num α) {p q : Point α} (h : ∀ x, p.get? x = q.get? x)
+    (e : Expr α) : evalG N p e = evalG N q e :=
+  evalG_congr_point N h e
+
+/-- … forward-mode partial derivative -/
+theorem fwd_same_lookups (N : Num α) {p q : Point α} (h : ∀ x, p.get? x = q.get? x)
+    (x : String) (e : Expr α) : fwdG N p x e = fwdG N q x e :=
+  fwdG_congr_point N h x e
+
+/-- … reverse mode, from any multiplier and accumulator -/
+theorem rev_same_lookups (N : Num α) {p q : Point α} (h : ∀ x, p.get? x = q.get? x)
+    (e : Expr α) (m : α) (acc : Acc α) : revG N p e m acc = revG N q e m acc :=
+  revG_congr_point N h e m acc
+
+/-- … all numeric partials at once -/
+theorem numericPartials_same_lookups (N : Num α) {p q : Point α}
+    (h : ∀ x, p.get? x = q.get? x) (e : Expr α) :
+    numericPartials N p e = numericPartials N q e :=
+  numericPartials_congr_point N h e
+
+/-- Writing the coordinates (distinct names) in another order does not change any lookup. -/
+theorem point_lookup_perm {p q : Point α} (h : p.Perm q) (hnd : p.names.Nodup) (x : String) :
+    p.get? x = q.get? x :=
+  Point.get?_perm h hnd x
+
+/-- **C18, evaluation at a re-ordered point.** -/
+theorem eval_perm (N : Num α) {p q : Point α} (h : p.Perm q) (hnd : p.names.Nodup)
+    (e : Expr α) : evalG N p e = evalG N q e :=
+  evalG_perm N h hnd e
+
+theorem fwd_perm (N : Num α) {p q : Point α} (h : p.Perm q) (hnd : p.names.Nodup)
+    (x : String) (e : Expr α) : fwdG N p x e = fwdG N q x e :=
+  fwdG_perm N h hnd x e
+
+theorem rev_perm (N : Num α) {p q : Point α} (h : p.Perm q) (hnd : p.names.Nodup)
+    (e : Expr α) (m : α) (acc : Acc α) : revG N p e m acc = revG N q e m acc :=
+  revG_perm N h hnd e m acc
+
+theorem numericPartials_perm_point (N : Num α) {p q : Point α} (h : p.Perm q)
+    (hnd : p.names.Nodup) (e : Expr α) : numericPartials N p e = numericPartials N q e :=
+  numericPartials_perm N h hnd e
+
+/-- the hypothesis is met by a genuinely re-ordered point … -/
+example : ∃ p q : Point ℝ, p ≠ q ∧ p.Perm q ∧ p.names.Nodup :=
+  ⟨[("x", 1), ("y", 2)], [("y", 2), ("x", 1)], by simp, List.Perm.swap _ _ _,
+    by simp [Point.names]⟩
+
+/-- … and `Nodup` cannot be dropped: with a repeated name the first entry wins.  (Python keyword
+arguments and dictionary keys are distinct, so such a point does not exist there.) -/
+example : ∃ p q : Point ℝ, p.Perm q ∧ p.get? "x" ≠ q.get? "x" :=
+  ⟨[("x", 1), ("x", 2)], [("x", 2), ("x", 1)], List.Perm.swap _ _ _, by simp [Point.get?]⟩
+
+/-! ### `Expression.at(number)` -/
+
+/-- the single variable is found whatever the order in which the variable set is listed -/
+theorem single_variable_perm {vs vs' : List String} (h : vs'.Perm vs) :
+    singleOf vs' = singleOf vs :=
+  singleOf_perm h
+
+/-- `singleOf` is the model's `get_the_single_variable_name` -/
+theorem single_variable_is_model (e : Expr α) : singleVarName e = singleOf e.vars :=
+  singleVarName_eq_singleOf e
+
+/-- `at(number)` is evaluation at any point, with any other coordinates in any order, that gives
+the number to the variable of the expression -/
+theorem at_number_any_point (N : Num α) (e : Expr α) (t : α) (p : Point α)
+    (hlen : e.vars.length ≤ 1) (hp : ∀ x, Occurs x e → p.get? x = some t) :
+    atNumber N e t = evalG N p e :=
+  atNumber_eq_evalG N e t p hlen hp
+
+example : ∃ (e : Expr ℝ) (p : Point ℝ), e.vars.length ≤ 1 ∧ p.length = 2 ∧
+    ∀ x, Occurs x e → p.get? x = some 3 :=
+  ⟨mkMul [mkVar "x", mkSin (mkVar "x")], [("y", 5), ("x", 3)],
+    by simp [Expr.vars, varsAux, varsAuxList], rfl, by
+      intro x hx
+      have : x = "x" := by simpa [Occurs, OccursList, eq_comm] using hx
+      subst this
+      simp [Point.get?]⟩
+
+/-! ### the order in which the variable set is listed at read-back -/
+
+/-- `numericPartialsOver N p e vs` is `_numeric_partials` reading back over the listing `vs` of the
+variable set; the model reads back over `e.vars`. -/
+theorem numericPartials_is_over (N : Num α) (p : Point α) (e : Expr α) :
+    numericPartials N p e = numericPartialsOver N p e e.vars :=
+  numericPartials_eq_over N p e
+
+/-- **C18, read-back.**  Whatever the order in which the variable set is iterated, the outcome is
+the same error, or a dictionary with the same entry under every name. -/
+theorem numericPartials_listing_order (N : Num α) (p : Point α) (e : Expr α)
+    {vs' : List String} (h : vs'.Perm e.vars) (x : String) :
+    (numericPartialsOver N p e vs').map (fun d => Acc.get? d x) =
+      (numericPartials N p e).map (fun d => Acc.get? d x) :=
+  numericPartialsOver_perm N p e h x
+
+/-- both orders at once: re-ordered point, re-ordered variable set -/
+theorem numericPartials_order_independent (N : Num α) {p q : Point α} (hp : p.Perm q)
+    (hnd : p.names.Nodup) (e : Expr α) {vs' : List String} (h : vs'.Perm e.vars) (x : String) :
+    (numericPartialsOver N q e vs').map (fun d => Acc.get? d x) =
+      (numericPartials N p e).map (fun d => Acc.get? d x) := by
+  rw [numericPartials_perm N hp hnd e]
+  exact numericPartialsOver_perm N q e h x
+
+/-- what a name finds in a read-back: the accumulated value (default `0`) if it is listed, nothing
+otherwise — the position in the listing leaves no trace -/
+theorem readBack_lookup (N : Num α) (acc : Acc α) (vs : List String) (x : String) :
+    Acc.get? (readBack N acc vs) x =
+      if x ∈ vs then some ((acc.get? x).getD N.zero) else none :=
+  get?_readBack N acc vs x
+
+/-- the accumulator of reverse mode is itself used only through its lookups: two accumulators with
+the same entries (in any order) lead to the same error or to accumulators with the same entries -/
+theorem rev_accumulator_order (N : Num α) (p : Point α) (e : Expr α) (m : α) {a b : Acc α}
+    (h : AccEq a b) : AccRel (revG N p e m a) (revG N p e m b) :=
+  revG_congr_acc N p e m a b h
+
+/-- `syntheticPartialsOver N e vs` is `_synthetic_partials` reading back over the listing `vs` -/
+theorem syntheticPartials_is_over (N : Num α) (e : Expr α) :
+    syntheticPartials N e = syntheticPartialsOver N e e.vars :=
+  syntheticPartials_eq_over N e
+
+/-- **C18, symbolic read-back.**  The expression found under every name does not depend on the
+order in which the variable set is iterated. -/
+theorem syntheticPartials_listing_order (N : Num α) (e : Expr α) {vs' : List String}
+    (h : vs'.Perm e.vars) (x : String) :
+    SAcc.get? (syntheticPartialsOver N e vs') x = SAcc.get? (syntheticPartials N e) x :=
+  syntheticPartialsOver_perm N e h x
+
+/-- a genuinely different listing of a two-variable expression's variable set -/
+example : ∃ (e : Expr ℝ) (vs' : List String), vs' ≠ e.vars ∧ vs'.Perm e.vars :=
+  ⟨mkDiv (mkVar "x") (mkMul [mkVar "y", mkVar "x"]), ["y", "x"],
+    by simp [Expr.vars, varsAux, varsAuxList],
+    by simpa [Expr.vars, varsAux, varsAuxList] using List.Perm.swap "x" "y" []⟩
+
+/-- accumulators with the same entries in a different order -/
+example : ∃ a b : Acc ℝ, a ≠ b ∧ AccEq a b :=
+  ⟨[("x", 1), ("y", 2)], [("y", 2), ("x", 1)], by simp, fun x =>
+    Point.get?_perm (List.Perm.swap _ _ _) (by simp [Point.names]) x⟩
+
+/-! ### differentiation creates no variable (used by C05 and C14) -/
+
+theorem symFwd_vars_subset (N : Num α) (x : String) (e : Expr α) {x' : String}
+    (h : x' ∈ (symFwd N x e).vars) : x' ∈ e.vars :=
+  vars_symFwd_subset N x e h
+
 end Smooth
